@@ -153,10 +153,16 @@ fn type_level_recursions(h: &H) -> Vec<H> {
 }
 
 pub fn perturb(h: &H, r: &mut Rng) -> Option<(H, &'static str)> {
+    perturb_at(h, r).map(|(m, k, _)| (m, k))
+}
+
+// As `perturb`, also returning the pre-order index (Paren nodes counted) of the node that was
+// replaced; usize::MAX for the kind that rewrites a literal found by its own search.
+pub fn perturb_at(h: &H, r: &mut Rng) -> Option<(H, &'static str, usize)> {
     let protected = type_level_recursions(h);
     if r.chance(1, 8) {
         if let Some(x) = reference_group_definition(h, r) {
-            return Some((x, "reference-group-definition"));
+            return Some((x, "reference-group-definition", usize::MAX));
         }
     }
     let n = count_nodes(h);
@@ -239,7 +245,7 @@ pub fn perturb(h: &H, r: &mut Rng) -> Option<(H, &'static str)> {
             if !protected.is_empty() && type_level_recursions(&out) != protected {
                 continue;
             }
-            return Some((out, kind));
+            return Some((out, kind, target));
         }
     }
     None
